@@ -34,6 +34,27 @@ const ZERO_COPY_THRESHOLD: usize = 4 * 1024;
 
 pub static VOID_IDENT: TStructIdentifier = TStructIdentifier { name: "void" };
 
+/// Validates an element count read from the wire against the bytes that are
+/// left: every element of a list, set or map occupies at least one byte, so a
+/// larger (or negative) count can only come from a truncated or corrupted
+/// message and must not be used to pre-allocate a container.
+#[inline]
+pub(crate) fn check_container_size(size: i32, remaining: usize) -> Result<usize, ThriftException> {
+    if size < 0 {
+        return Err(new_protocol_exception(
+            ProtocolExceptionKind::NegativeSize,
+            format!("negative container size {size}"),
+        ));
+    }
+    if size as usize > remaining {
+        return Err(new_protocol_exception(
+            ProtocolExceptionKind::SizeLimit,
+            format!("container size {size} exceeds the {remaining} remaining bytes"),
+        ));
+    }
+    Ok(size as usize)
+}
+
 pub trait Message: Sized + Send {
     fn encode<T: TOutputProtocol>(&self, protocol: &mut T) -> Result<(), ThriftException>;
 
